@@ -53,6 +53,27 @@ Theorem C16_schema_roundtrip_accepted : forall S tm sn,
 Proof. exact schema_roundtrip_settings. Qed.
 Print Assumptions C16_schema_roundtrip_accepted.
 
+(* histories of runs into the same target: the output is a function of schema + settings only, never of
+   what the target held before (nor of its age); tied by the multi-step histories of the check *)
+Theorem C16_step_ignores_target : forall old1 old2 x, settings_ok (st_tm x) (st_sn x) = true ->
+  graphql_schema_step old1 x = graphql_schema_step old2 x.
+Proof. exact step_ignores_target. Qed.
+Print Assumptions C16_step_ignores_target.
+
+Theorem C16_history_is_last_step : forall old h x, settings_ok (st_tm x) (st_sn x) = true ->
+  run_history old (h ++ [x]) = Some (fresh_output x).
+Proof. exact history_is_last_step. Qed.
+
+Theorem C16_history_refused_keeps : forall old h x, settings_ok (st_tm x) (st_sn x) = false ->
+  run_history old (h ++ [x]) = run_history old h.
+Proof. exact history_refused_keeps. Qed.
+
+Theorem C16_history_roundtrip : forall old h x, settings_ok (st_tm x) (st_sn x) = true -> st_format x = FPy ->
+  wf_gen dv_val (st_schema x) = true ->
+  exists m, run_history old (h ++ [x]) = Some (CModule m) /\ eval_module m = Some (strip_std (st_schema x)).
+Proof. exact history_roundtrip. Qed.
+Print Assumptions C16_history_roundtrip.
+
 (* nothing of the schema is lost in the module *)
 Theorem C16_gen_injective : forall S1 S2 tm sn,
   settings_ok tm sn = true -> wf_gen dv_val S1 = true -> wf_gen dv_val S2 = true ->
